@@ -492,7 +492,7 @@ def rule_schema_index(ctx):
                 for x in ast.walk(e):
                     if isinstance(x, ast.Subscript) and isinstance(x.ctx, ast.Load) and norm(x) == 'namedTypes[idx]':
                         sites.append((n, x))
-        if len(sites) < 4:
+        if len(sites) < 1:
             raise AnalysisError('expected the namedTypes[idx] accesses in %s' % f.short)
         protected = []
         for n, x in sites:
